@@ -1246,7 +1246,13 @@ static mi_segment_t* mi_segment_reclaim(mi_segment_t* segment, mi_heap_t* heap, 
       // get the target heap for this thread which has a matching heap tag (so we reclaim into a matching heap)
       mi_heap_t* target_heap = _mi_heap_by_tag(heap, page->heap_tag);  // allow custom heaps to separate objects
       if (target_heap != NULL && target_heap != heap && !_mi_heap_memid_is_suitable(target_heap, segment->memid)) {
-        target_heap = NULL;  // never move pages of an exclusive arena into a heap that is not bound to that arena
+        // never move pages of an exclusive arena into a heap that is not bound to that arena;
+        // another heap with this tag (like the backing heap) may still be able to take the page.
+        mi_heap_t* curr = heap->tld->heaps;
+        while (curr != NULL && !(curr->tag == page->heap_tag && !curr->no_reclaim && _mi_heap_memid_is_suitable(curr, segment->memid))) {
+          curr = curr->next;
+        }
+        target_heap = curr;
       }
       if (target_heap == NULL) {
         target_heap = heap;  // note: `heap` is always suitable for the segment and allowed to reclaim (see the callers)
